@@ -39,6 +39,9 @@ struct Prog {
     steps: Vec<Step>,
     outputs: Vec<usize>,
     smuggle: bool,
+    /// variables declared as inputs *in addition* to the fresh input variables: any variable, so
+    /// the same one can be declared twice and an operator result can be declared an input
+    extra_inputs: Vec<usize>,
 }
 
 const BIN: &[u32] = &[0, 1, 2, 4, 5, 12, 13, 14, 15];
@@ -84,7 +87,8 @@ fn gen_prog(t: &mut Tape, ctx: &Ctx) -> Prog {
     }
     let nout = if nvars == 0 { 0 } else { t.range(0, 3) };
     let outputs = (0..nout).map(|_| t.choice(nvars)).collect();
-    Prog { input_labels, steps, outputs, smuggle: t.chance(1, 10) }
+    let extra_inputs: Vec<usize> = if nvars > 0 && t.chance(1, 8) { (0..t.range(1, 2)).map(|_| t.choice(nvars)).collect() } else { vec![] };
+    Prog { input_labels, steps, outputs, smuggle: t.chance(1, 10), extra_inputs }
 }
 
 /// C19's reading of the operator labels: every binary operator is made non-commutative (the second
@@ -127,7 +131,7 @@ type State = std::rc::Rc<RefCell<LOH>>;
 fn run_builder(p: &Prog, leak: &RefCell<Option<Var<Ob, Op>>>) -> var::BuildResult<Ob, Op> {
     var::build(|state: &State| {
         let mut vars: Vec<Var<Ob, Op>> = p.input_labels.iter().map(|&l| Var::new(state.clone(), Ob(l))).collect();
-        let inputs = vars.clone();
+        let mut inputs = vars.clone();
         for s in &p.steps {
             match s {
                 Step::Bin(op, a, b) => {
@@ -166,6 +170,7 @@ fn run_builder(p: &Prog, leak: &RefCell<Option<Var<Ob, Op>>>) -> var::BuildResul
                 *leak.borrow_mut() = Some(v.clone());
             }
         }
+        inputs.extend(p.extra_inputs.iter().map(|&i| vars[i].clone()));
         (inputs, p.outputs.iter().map(|&i| vars[i].clone()).collect())
     })
 }
@@ -230,8 +235,8 @@ fn program_case(ctx: &mut Ctx, p: &Prog, xs: &[Vec<u64>]) -> CheckResult {
     ensure!(ctx, l.d.edges.len() - var_edges == nops, "term-structure", "{} operator hyperedges for {} applied operators", l.d.edges.len() - var_edges, nops);
     let _ = nvars;
     ensure!(ctx, l.q.is_empty(), "term-structure", "the built term has pending unifications {:?}", l.q);
-    ensure!(ctx, l.d.s.len() == p.input_labels.len() && l.d.t.len() == p.outputs.len(), "term-structure", "interfaces have lengths {} and {}, declared {} and {}", l.d.s.len(), l.d.t.len(), p.input_labels.len(), p.outputs.len());
-    ensure!(ctx, l.d.source_type() == p.input_labels, "term-structure", "source type {:?} but the inputs were declared {:?}", l.d.source_type(), p.input_labels);
+    let declared_inputs = p.input_labels.len() + p.extra_inputs.len();
+    ensure!(ctx, l.d.s.len() == declared_inputs && l.d.t.len() == p.outputs.len(), "term-structure", "interfaces have lengths {} and {}, declared {} and {}", l.d.s.len(), l.d.t.len(), declared_inputs, p.outputs.len());
     // type of every variable as the signature declares it (binary / unary operators: type of the
     // (left) operand; generic operations: the declared result types)
     let mut var_labels: Vec<u32> = p.input_labels.clone();
@@ -242,12 +247,19 @@ fn program_case(ctx: &mut Ctx, p: &Prog, xs: &[Vec<u64>]) -> CheckResult {
             Step::FnOp(_, _) => var_labels.push(0),
         }
     }
+    let want_s: Vec<u32> = p.input_labels.iter().copied().chain(p.extra_inputs.iter().map(|&i| var_labels[i])).collect();
+    ensure!(ctx, l.d.source_type() == want_s, "term-structure", "source type {:?} but the inputs were declared {:?}", l.d.source_type(), want_s);
     let want_t: Vec<u32> = p.outputs.iter().map(|&i| var_labels[i]).collect();
     ensure!(ctx, l.d.target_type() == want_t, "term-structure", "target type {:?} but the outputs were declared with types {:?}", l.d.target_type(), want_t);
-    // every variable edge has exactly one source (its definition)
+    // every variable edge has exactly one source (its definition) - unless a variable was declared
+    // an input more than once, or an operator result was declared an input as well
+    let plain_inputs = p.extra_inputs.is_empty();
+    ctx.class_if(!plain_inputs, "variable-declared-input-twice");
     for e in l.d.edges.iter().filter(|e| e.label == VAR) {
-        ensure!(ctx, e.src.len() == 1, "term-structure", "a variable hyperedge has {} definitions: {:?}", e.src.len(), e);
+        ensure!(ctx, !plain_inputs || e.src.len() == 1, "term-structure", "a variable hyperedge has {} definitions: {:?}", e.src.len(), e);
     }
+    let definitions: usize = l.d.edges.iter().filter(|e| e.label == VAR).map(|e| e.src.len()).sum();
+    ensure!(ctx, definitions == nvars + p.extra_inputs.len(), "term-structure", "the variable hyperedges have {} sources in all, want one per variable plus one per additional declaration = {}", definitions, nvars + p.extra_inputs.len());
     // meaning
     let m = vars_as_copies(&l.d);
     let forgotten = forget(&term);
@@ -256,6 +268,10 @@ fn program_case(ctx: &mut Ctx, p: &Prog, xs: &[Vec<u64>]) -> CheckResult {
     ensure!(ctx, fm.source_type() == l.d.source_type() && fm.target_type() == l.d.target_type(), "forget-preserves-type", "forget changed the type");
     let fmono = forget_monogamous(&term);
     let fmono = wf(ctx, "term-wf", from_lax(&fmono), "forget_monogamous(term)")?.strictify().map_err(|e| ctx.fail("term-wf", e))?;
+    if !plain_inputs {
+        // a variable with two definitions has no reading as a function of the declared inputs
+        return Ok(());
+    }
     for x in xs {
         let want = run_direct(p, x);
         ctx.sub("term-means-program");
@@ -393,7 +409,7 @@ fn fixed(ctx: &mut Ctx) -> CheckResult {
         forget_case(ctx, &l)?;
     }
     // x + x with a free variable x
-    let p = Prog { input_labels: vec![0], steps: vec![Step::Bin(0, 0, 0), Step::Un(3, 1)], outputs: vec![2, 0], smuggle: false };
+    let p = Prog { input_labels: vec![0], steps: vec![Step::Bin(0, 0, 0), Step::Un(3, 1)], outputs: vec![2, 0], smuggle: false, extra_inputs: vec![] };
     ctx.set_dump(format!("fixed: {:?}", p));
     program_case(ctx, &p, &[vec![21]])
 }
